@@ -110,12 +110,77 @@ func (w *worker) kill() {
 
 const runTimeout = 10 * time.Second
 
-// runAll runs the requests on n workers, results in request order.
-func runAll(n int, reqs []runReq) []runResp {
+// pool keeps its worker processes for the whole run.
+type pool struct {
+	mu   sync.Mutex
+	idle []*worker
+	n    int
+}
+
+func newPool(n int) *pool { return &pool{n: n} }
+
+func (p *pool) get() (*worker, error) {
+	p.mu.Lock()
+	if k := len(p.idle); k > 0 {
+		w := p.idle[k-1]
+		p.idle = p.idle[:k-1]
+		p.mu.Unlock()
+		return w, nil
+	}
+	p.mu.Unlock()
+	return startWorker()
+}
+
+func (p *pool) put(w *worker) {
+	p.mu.Lock()
+	p.idle = append(p.idle, w)
+	p.mu.Unlock()
+}
+
+func (p *pool) close() {
+	p.mu.Lock()
+	for _, w := range p.idle {
+		w.kill()
+	}
+	p.idle = nil
+	p.mu.Unlock()
+}
+
+// askWorker runs a single request on worker w; ok=false: the worker is gone.
+func askWorker(w *worker, rq runReq) (runResp, bool) {
+	jb, _ := json.Marshal(rq)
+	type rd struct {
+		line []byte
+		err  error
+	}
+	ch := make(chan rd, 1)
+	go func() {
+		w.in.Write(append(jb, '\n'))
+		l, err := w.out.ReadBytes('\n')
+		ch <- rd{l, err}
+	}()
+	select {
+	case r := <-ch:
+		if r.err != nil {
+			w.kill()
+			return runResp{ID: rq.ID, Status: "died", Detail: "the interpreter process exited"}, false
+		}
+		var rs runResp
+		json.Unmarshal(r.line, &rs)
+		return rs, true
+	case <-time.After(runTimeout):
+		w.kill()
+		return runResp{ID: rq.ID, Status: "hang", Detail: "no answer within " + runTimeout.String()}, false
+	}
+}
+
+// run processes the requests on up to n workers, results in request order.
+func (p *pool) run(reqs []runReq) []runResp {
 	res := make([]runResp, len(reqs))
 	var next int
 	var mu sync.Mutex
 	var wg sync.WaitGroup
+	n := p.n
 	if n > len(reqs) {
 		n = len(reqs)
 	}
@@ -126,7 +191,7 @@ func runAll(n int, reqs []runReq) []runResp {
 			var w *worker
 			defer func() {
 				if w != nil {
-					w.kill()
+					p.put(w)
 				}
 			}()
 			for {
@@ -139,37 +204,14 @@ func runAll(n int, reqs []runReq) []runResp {
 				}
 				if w == nil {
 					var err error
-					if w, err = startWorker(); err != nil {
+					if w, err = p.get(); err != nil {
 						res[idx] = runResp{ID: reqs[idx].ID, Status: "died", Detail: "cannot start worker: " + err.Error()}
 						w = nil
 						continue
 					}
 				}
-				jb, _ := json.Marshal(reqs[idx])
-				type rd struct {
-					line []byte
-					err  error
-				}
-				ch := make(chan rd, 1)
-				go func(w *worker) {
-					w.in.Write(append(jb, '\n'))
-					l, err := w.out.ReadBytes('\n')
-					ch <- rd{l, err}
-				}(w)
-				select {
-				case r := <-ch:
-					if r.err != nil {
-						res[idx] = runResp{ID: reqs[idx].ID, Status: "died", Detail: "the interpreter process exited"}
-						w.kill()
-						w = nil
-						continue
-					}
-					var rs runResp
-					json.Unmarshal(r.line, &rs)
-					res[idx] = rs
-				case <-time.After(runTimeout):
-					res[idx] = runResp{ID: reqs[idx].ID, Status: "hang", Detail: "no answer within " + runTimeout.String()}
-					w.kill()
+				var ok bool
+				if res[idx], ok = askWorker(w, reqs[idx]); !ok {
 					w = nil
 				}
 			}
